@@ -12,7 +12,7 @@ import numpy as np
 
 from engines.procwatch import run_forked
 from vlib import cats
-from vlib.core import ERROR, HELD, VIOLATED, Check, Scratch, result
+from vlib.core import case_bits, ERROR, HELD, VIOLATED, Check, Scratch, result
 
 WINDOWS = {
     "ordinary": lambda rng: (rng.uniform(0, 200), None, rng.uniform(-60, 20), None),
@@ -156,6 +156,11 @@ class C16(Check):
         m = case["nattr"]
         w = (np.arange(m) + 0.5) if case["attrs"] in ("w", "both") else None
         z = ((np.arange(m) * 7919) % 10007 + 1) / 4096.0 if case["attrs"] in ("z", "both") else None
+        # a weight sample with exact zeros (masked objects, 0/1 flags): zero-weight rows are drawn like any other
+        zero_w = w is not None and case_bits(case, "zero-weights") % 3 == 0
+        if zero_w:
+            w = w.copy()
+            w[np.arange(m) % 3 == 1] = 0.0
         seed = int(rng.integers(1 << 30))
         if case["mode"] == "generate":
             n = max(n, 200)
@@ -202,7 +207,18 @@ class C16(Check):
             if ("weights" in rows.dtype.names) != (w is not None) or ("redshifts" in rows.dtype.names) != (z is not None):
                 bad("attributes:columns-differ", dict(names=list(rows.dtype.names)))
             else:
-                if w is not None:
+                if zero_w:
+                    counters["zero_weight_tables"] = 1
+                    if not np.all(np.isin(rows["weights"], w)):
+                        bad("attributes:weight-not-from-table", {})
+                    elif z is not None and m <= 10007:
+                        order = np.argsort(z)
+                        src = order[np.searchsorted(z[order], rows["redshifts"])]  # source row through the unique redshift
+                        if not (np.array_equal(z[src], rows["redshifts"]) and np.array_equal(w[src], rows["weights"])):
+                            bad("attributes:weight-redshift-not-joint", dict(zero_weights=True))
+                    if m >= 30 and n >= 60 and not np.any(rows["weights"] == 0.0):
+                        bad("attributes:zero-weight-rows-never-drawn", dict(n=n, m=m))
+                elif w is not None:
                     k = rows["weights"] - 0.5
                     if not (np.all(k == np.round(k)) and np.all((k >= 0) & (k < m))):
                         bad("attributes:weight-not-from-table", {})
